@@ -12,7 +12,7 @@ use serde_json::Value;
 use crate::pool::{self, arg_u64};
 use crate::report;
 
-fn collect(kind: &str, seed: u64, n: u64, w: u64, pristine: Option<&str>) -> Result<BTreeMap<u64, String>, String> {
+fn collect(kind: &str, seed: u64, n: u64, w: u64, pristine: Option<&str>, exe: &std::path::Path) -> Result<BTreeMap<u64, String>, String> {
     let per = (n + w - 1) / w;
     let argvs: Vec<Vec<String>> = (0..w)
         .map(|i| {
@@ -31,10 +31,16 @@ fn collect(kind: &str, seed: u64, n: u64, w: u64, pristine: Option<&str>) -> Res
                 a.push("--pristine".into());
                 a.push(p.to_string());
             }
+            if kind == "c19" {
+                // concurrent-caller runs too (indices >= 2e9)
+                a.push("--conc-count".into());
+                a.push(((n / 4 + w - 1) / w).to_string());
+            }
             a
         })
         .collect();
-    let outs = pool::run_children(&argvs);
+    let exes: Vec<std::path::PathBuf> = argvs.iter().map(|_| exe.to_path_buf()).collect();
+    let outs = pool::run_children_exes(&exes, &argvs, argvs.len());
     let mut m = BTreeMap::new();
     for o in outs {
         if o.code != Some(0) {
@@ -44,7 +50,7 @@ fn collect(kind: &str, seed: u64, n: u64, w: u64, pristine: Option<&str>) -> Res
             if l.starts_with("{\"ep\"") || l.starts_with("{\"run\"") {
                 let v: Value = serde_json::from_str(&l).map_err(|e| e.to_string())?;
                 let idx = v.get("ep").or_else(|| v.get("run")).and_then(|x| x.as_u64()).unwrap_or(u64::MAX);
-                if idx < n {
+                if idx < n || (idx >= crate::c19::conc::CONC_BASE && idx < crate::c19::conc::CONC_BASE + n / 4) {
                     let sig = format!(
                         "{}|{}|{}",
                         v.get("t").and_then(|x| x.as_str()).unwrap_or(""),
@@ -77,14 +83,21 @@ fn determinism(args: &[String]) -> i32 {
     let pp = pp.to_str().unwrap().to_string();
     let mut bad = 0u64;
     let mut total = 0u64;
+    // C14 on every harness variant (facade / plain), C19 on the plain one
+    let mut jobs: Vec<(String, String, std::path::PathBuf)> = Vec::new();
+    for (vn, exe) in pool::variants() {
+        jobs.push(("c14".into(), vn.clone(), exe.clone()));
+    }
+    jobs.push(("c19".into(), "plain".into(), pool::variant_exe("plain")));
     for s in 0..k {
         let seed = report::DEFAULT_SEED + 7919 * s;
-        for kind in ["c14", "c19"] {
+        for (kind, vname, exe) in jobs.iter() {
+            let kind = kind.as_str();
             let p = if kind == "c14" { Some(pp.as_str()) } else { None };
             let mut maps = Vec::new();
             for w in [16u64, 3, 1] {
                 let nn = if w == 1 { n / 8 } else { n };
-                match collect(kind, seed, nn, w, p) {
+                match collect(kind, seed, nn, w, p, exe) {
                     Ok(m) => maps.push((w, m)),
                     Err(e) => {
                         eprintln!("selftest: {}", e);
@@ -108,7 +121,7 @@ fn determinism(args: &[String]) -> i32 {
                     }
                 }
             }
-            println!("selftest determinism: {} seed {}: {} runs x worker counts 16/3/1 compared", kind, seed, base.len());
+            println!("selftest determinism: {} ({}) seed {}: {} runs x worker counts 16/3/1 compared", kind, vname, seed, base.len());
         }
     }
     let _ = std::fs::remove_dir_all(&scratch);
